@@ -320,6 +320,7 @@ def rules(ctx, expected_floor=8):
         ctx.broken.append("K11: only %d lock-free operations found in doc comments" % len(L))
     # call graph closure per entry shape
     memo = {}
+    expanded = {x["callee"] for x in getattr(facts, "inline_report", {}).get("expanded", [])}
 
     def reach(pat, depth=0):
         """set of W patterns reachable from pattern (over all shapes of callees), with one witness chain"""
@@ -332,9 +333,9 @@ def rules(ctx, expected_floor=8):
         for fn in facts.shapes(pat)[:8]:
             for b, i, e, n in fn.events():
                 c = None
-                if n["k"] in ("call", "construct") and n.get("xen"):
+                if n["k"] in ("call", "construct") and n.get("xen") and not n.get("inlined"):
                     c = n.get("callee")
-                elif n["k"] == "lambda":
+                elif n["k"] == "lambda" and n.get("fn") not in expanded:
                     c = n.get("fn")
                 elif n["k"] in ("call", "construct") and n.get("callee") in LOCK_CALLS:
                     pass
@@ -352,9 +353,9 @@ def rules(ctx, expected_floor=8):
             hits[fn.pat] = [fn.pat]
         for b, i, e, n in fn.events():
             c = None
-            if n["k"] in ("call", "construct") and n.get("xen"):
-                c = n.get("callee")
-            elif n["k"] == "lambda":
+            if n["k"] in ("call", "construct") and n.get("xen") and not n.get("inlined"):
+                c = n.get("callee")      # (a virtually inlined helper is part of this body: its loops were classified with the caller's shape)
+            elif n["k"] == "lambda" and n.get("fn") not in expanded:
                 c = n.get("fn")
             if c:
                 for w, chain in reach(c).items():
